@@ -17,23 +17,4 @@ theorem print_values_not_searched :
   · simp [printWitness, finderV, finderN, isTypeDef, isVarDecl, finderLeaves, bindE, ret, plainCfg, findUniques]
   · decide
 
-/-- `pairing-leaks-raw-declaration-children`: with `unique=True` (the default) the leaked `None` reaches
-`assert isinstance(var, Expression)` -/
-theorem decl_pairing_unique_raises :
-    finderV ⟨true, true⟩ isScalar (.n declWitness) = .error .assertion := by
-  simp [declWitness, finderV, finderN, isTypeDef, isVarDecl, finderT, finderEach, bindE, walk, walkO, post, ret, flat1,
-    isScalar, E.tag, rawCs, rawC, R.item?, R.isPair, findUniques, initials, symbolsOf, nE, uniqE, dictDedupe,
-    dictInsert, osetDedupe, Item.expr?]
-
-def scopeRender : ScopeRes → List Nat
-  | .chain a => a.map Node.uid
-  | .bare n => [1000 + n.uid]
-
-/-- `findscopes-typedef-returns-node`: for a `TypeDef` match `FindScopes` appends the node itself instead of the list
-of its ancestors (inherited `FindNodes.visit_TypeDef`) -/
-theorem findscopes_typedef_bare :
-    (scopesC 1 true [] (.n (.mk "Section" 0 0 [.grp [.n (.mk "TypeDef" 1 1 [.grp []] [])]] []))).map scopeRender
-      = [[1001]] := by
-  simp [scopesC, scopesN, scopesCs, isTypeDef, scopeRender, Node.uid]
-
 end LokiModel.C15.Findings
